@@ -362,8 +362,12 @@ def finish(ev, t0, nviol, mod, aud, facts, recs, kf_lines, notes):
     sigs = set()
     counted = [r for r in recs if r.get("status") in ("pass", "known", "violation", "mismatch")]
     for r in counted:
-        if mod.nontrivial(r["case"], r["impl"]):
-            sigs.add(mod.sig(r["case"], r["impl"]))
+        r["case"].setdefault("_tag", r["case"].get("_src", "corpus"))
+        try:
+            if mod.nontrivial(r["case"], r["impl"]):
+                sigs.add(mod.sig(r["case"], r["impl"]))
+        except Exception:
+            pass
     samples = []
     for r in counted[:: max(1, len(counted) // 6)][:6]:
         samples.append({"case": {k: v for k, v in r["case"].items() if not k.startswith("_")}, "impl": r["impl"]})
